@@ -89,7 +89,17 @@ type c05Step struct {
 	Queries []c05Query
 	Mode    string
 }
+type c05OptIn struct {
+	Avss   []c05Avs
+	Key    int
+	KeyStr string
+	Op     int
+	OK     bool
+	Before []c05Row
+	After  []c05Row
+}
 type c05Case struct {
+	OptIns []c05OptIn `json:"optins,omitempty"`
 	Suite string    `json:"suite"`
 	Tags  []string  `json:"tags,omitempty"`
 	NT    bool      `json:"nt"`
@@ -102,6 +112,77 @@ var c05EpochNames = []string{"minute", "hour", "day", "week"}
 type c05Gen struct {
 	*c04Gen
 	avsIDs map[string]int
+	optins []c05OptIn
+}
+
+// optIn calls the real OperatorKeeper.OptIn; when record is set the registry and the value rows before/after go into the case.
+func (g *c05Gen) optIn(ctx sdk.Context, ids *c04IDs, oi int, addr string, record bool) error {
+	app := g.w.Env.App
+	var o c05OptIn
+	if record {
+		o.Avss = g.observe(ctx, ids).Avss
+		o.Before = g.dumpState(ctx, ids).Rows
+	}
+	err := app.OperatorKeeper.OptIn(ctx, g.w.Env.Operators[oi], addr)
+	if record {
+		o.Key, o.KeyStr, o.Op, o.OK = g.avsID(addr), addr, oi, err == nil
+		o.After = g.dumpState(ctx, ids).Rows
+		g.optins = append(g.optins, o)
+		if err == nil {
+			g.cw.Count("optin.recorded.ok")
+		} else {
+			g.cw.Count("optin.recorded.err")
+		}
+	}
+	return err
+}
+
+// otherSpelling returns another letter case of a hex address (or "" if it has no letters)
+func otherSpelling(addr string) string {
+	up := "0x" + strings.ToUpper(addr[2:])
+	if up != addr {
+		return up
+	}
+	lo := strings.ToLower(addr)
+	if lo != addr {
+		return lo
+	}
+	return ""
+}
+
+func c05AvssCoq(avss []c05Avs) string {
+	var vs []string
+	for _, a := range avss {
+		var xs, al []string
+		for _, x := range a.Assets {
+			xs = append(xs, cZ(int64(x)))
+		}
+		for _, x := range a.Aliases {
+			al = append(al, cZ(int64(x)))
+		}
+		vs = append(vs, cApp("mkAvs", cZ(int64(a.ID)), cZ(int64(a.Epoch)), cZ(a.Start), cZbig(new(big.Int).SetUint64(a.Min)), cList(xs), cBool(a.AssetsOK), cList(al)))
+	}
+	return cList(vs)
+}
+
+func c05RowsCoq(rows []c05Row) string {
+	var rs []string
+	for _, r := range rows {
+		rs = append(rs, cApp("mkRow", cZ(int64(r.Avs)), cZ(int64(r.Op)), cZstr(r.Self), cZstr(r.Total), cZstr(r.Active)))
+	}
+	return cList(rs)
+}
+
+func (o c05OptIn) coq() string {
+	return cApp("mkO", c05AvssCoq(o.Avss), cZ(int64(o.Key)), cZ(int64(o.Op)), cBool(o.OK), c05RowsCoq(o.Before), c05RowsCoq(o.After))
+}
+
+func c05OptInsCoq(os []c05OptIn) string {
+	var xs []string
+	for _, o := range os {
+		xs = append(xs, o.coq())
+	}
+	return cList(xs)
 }
 
 // avsID: identity of an AVS KEY STRING as the operator module sees it (case sensitive).
@@ -399,8 +480,9 @@ func runC05(a *Args) error {
 	base := w.Env.Ctx
 	rng := g.rng
 
-	// ---- directed scenario first: AVS registered with an EIP-55 (mixed case) address string, operator opts in with the
-	// lower-case spelling (accepted: the AVS keeper resolves by address bytes); the epoch hook never updates that row ----
+	// ---- directed regression scenario first: AVS registered with an EIP-55 (mixed case) address string, an operator opts in with
+	// the lower-case spelling. This used to be accepted (the AVS keeper resolved by address bytes) and created a row that the
+	// epoch hook never updates; the repaired IsAVS rejects it ----
 	{
 		ctx, _ := base.CacheContext()
 		ids := &c04IDs{m: map[string]int{}}
@@ -412,11 +494,13 @@ func runC05(a *Args) error {
 		if err != nil {
 			panic(err)
 		}
-		if err := app.OperatorKeeper.OptIn(ctx, w.Env.Operators[0], mixed); err != nil {
+		g.optins = nil
+		if err := g.optIn(ctx, ids, 0, mixed, true); err != nil {
 			panic(err)
 		}
-		if err := app.OperatorKeeper.OptIn(ctx, w.Env.Operators[1], strings.ToLower(mixed)); err != nil {
-			panic(err)
+		// the other spelling must be rejected (it used to be accepted and to create a row that no epoch end ever updates)
+		if err := g.optIn(ctx, ids, 1, strings.ToLower(mixed), true); err == nil {
+			cw.Count("directed.other-spelling-accepted")
 		}
 		st := c05Step{Mode: "hook"}
 		st.Env = g.observe(ctx, ids)
@@ -429,13 +513,14 @@ func runC05(a *Args) error {
 		st.Queries = g.queries(ctx, ids, st.Env)
 		st.Votes = g.votes(ctx)
 		g.stats(st)
-		cw.Add(cApp("mkCase", cList([]string{st.coq()})), c05Case{Suite: "c05", NT: true, Steps: []c05Step{st}, Tags: []string{"kf-C05-avs-address-case"}})
+		cw.Add(cApp("mkCase", cList([]string{st.coq()}), c05OptInsCoq(g.optins)), c05Case{Suite: "c05", NT: true, Steps: []c05Step{st}, OptIns: g.optins, Tags: []string{"regress-C05-avs-address-case"}})
 		cw.Count("directed.avs-address-case")
 	}
 
 	for cw.n < a.N {
 		ctx, _ := base.CacheContext()
 		ids := &c04IDs{m: map[string]int{}}
+		g.optins = nil
 		ctx = ctx.WithBlockHeight(5)
 		g.pricesGE1(ctx)
 		// ledgers for several operators
@@ -512,9 +597,17 @@ func runC05(a *Args) error {
 			allAvs = append(allAvs, c.addr)
 		}
 		for _, c := range cfgs {
-			for oi, op := range w.Env.Operators {
+			for oi := range w.Env.Operators {
 				if rng.Intn(3) > 0 {
-					if err := app.OperatorKeeper.OptIn(ctx, op, c.addr); err != nil {
+					addr := c.addr
+					rec := rng.Intn(4) == 0
+					if rng.Intn(12) == 0 {
+						if o := otherSpelling(c.addr); o != "" {
+							addr, rec = o, true
+							cw.Count("optin.other-spelling-attempt")
+						}
+					}
+					if err := g.optIn(ctx, ids, oi, addr, rec); err != nil {
 						cw.Count("optin.err")
 					} else {
 						cw.Count("optin.ok")
@@ -576,7 +669,15 @@ func runC05(a *Args) error {
 					} else {
 						cw.Count("optout.err")
 					}
-				} else if err := app.OperatorKeeper.OptIn(ctx, op, c.addr); err == nil {
+				} else if err := g.optIn(ctx, ids, w.opIdx(op.String()), func() string {
+					if rng.Intn(6) == 0 {
+						if o := otherSpelling(c.addr); o != "" {
+							cw.Count("optin.other-spelling-attempt")
+							return o
+						}
+					}
+					return c.addr
+				}(), true); err == nil {
 					cw.Count("optin.ok")
 				} else {
 					cw.Count("optin.err")
@@ -660,7 +761,7 @@ func runC05(a *Args) error {
 		for _, s := range steps {
 			ss = append(ss, s.coq())
 		}
-		cw.Add(cApp("mkCase", cList(ss)), c05Case{Suite: "c05", NT: nt, Steps: steps})
+		cw.Add(cApp("mkCase", cList(ss), c05OptInsCoq(g.optins)), c05Case{Suite: "c05", NT: nt, Steps: steps, OptIns: g.optins})
 		cw.Count(fmt.Sprintf("steps=%d", len(steps)))
 	}
 	return nil
